@@ -19,7 +19,8 @@
 (*     five filters, four repeat modes, a few requests) with invariants that relate         *)
 (*     configurations: identity / integer translation copy pixels, a horizontal flip        *)
 (*     mirrors the row, multiplying all nine matrix entries by k (a projective matrix with  *)
-(*     w = k) admits the affine reference, the configuration survives a fetch.              *)
+(*     w = k) admits the affine reference, the narrow reference is admissible for the wide   *)
+(*     (floating point) evaluation.                                                         *)
 (* Negative configurations (must be rejected): Fix = 0 (REFLECT off by one),                *)
 (* Mutant = "ties_up" (NEAREST rounding ties up), Mutant = "kernel_up" (even kernels        *)
 (* aligned one pixel late).                                                                 *)
@@ -208,6 +209,13 @@ HomogeneousOK ==
 RefOK ==
     Fetched => /\ Admissible(image, transform, filter, repeat, out.x0, out.y0, out.n, out.rows, out.px)
                /\ out.px = RefRows(image, transform, filter, repeat, out.x0, out.y0, out.n, out.rows)
+
+\* the narrow (8-bit) reference is within what the wide (floating point) evaluation admits
+WideConsistentOK ==
+    Fetched => \A j \in 1..out.rows, i \in 1..out.n :
+        WideChannelsOK(WideInterval(image, filter, repeat, AffinePos(transform, 1, out.x0 + i - 1, out.y0 + j - 1),
+                                    AffinePos(transform, 2, out.x0 + i - 1, out.y0 + j - 1)),
+                       out.px[j][i], <<255, 255, 255, 255>>)
 
 \* channels stay in range
 RangeOK == Fetched => \A j \in 1..out.rows, i \in 1..out.n, c \in 1..4 : out.px[j][i][c] \in 0..255
